@@ -340,6 +340,19 @@ def stepLine (st : St) (line : String) : St × String :=
                     | .ok b => (st, if i < s.size then byteHex b else "in")
                 | _, _ => (st, "bad")
             | _, _ => (st, "bad-op")
+        | ["sstoi", r] =>
+            -- stoi(static_string) reads through c_str(): the terminator is written, the number is judged by the harness
+            match r.toNat? with
+            | some r =>
+                match decide (r < c.K ∧ c.port = true), m r with
+                | true, some s =>
+                    match sCStr s with
+                    | .error f => (.dead, showFault f)
+                    | .ok (s', _) =>
+                        let m' := setSReg m r (some s')
+                        (.ss wd c m', s!"num | {showSRegs c m'}")
+                | _, _ => (st, "bad")
+            | none => (st, "bad-op")
         | ["ssplit", r, d, vs, ss] =>
             match r.toNat?, byte? d, vs.toNat?, ss.toNat? with
             | some r, some d, some vs, some ss =>
